@@ -10,6 +10,7 @@ the library."""
 from __future__ import annotations
 
 import array
+import io
 import math
 import struct
 import sys
@@ -1004,9 +1005,26 @@ ARR_BS_DTYPES = [('uint8', 8), ('int8', 8), ('uint16', 16), ('uint24', 24), ('in
                  ('uint12', 12), ('bool', 1), ('bin7', 7), ('int5', 5), ('uint17', 17), ('hex12', 12), ('oct9', 9)]
 
 
+ARR_TOUCHES = ['itemsize', 'byteswap-twice', 'equals', 'pp', 'tolist', 'repr', 'trailing', 'nothing']
+
+
 def judge_arr_bswap(ctx, c):
     dt, isz, bits = c['dtype'], c['itemsize'], c['bin']
-    a = bitstring.Array(dt, bitstring.Bits(bin=bits) if bits else bitstring.Bits())
+    if c.get('first'):
+        # the Array had another dtype (of another width) first and was looked at under it: what byteswap does depends on the
+        # dtype in force when it is called, not on anything read or done before the dtype was changed
+        a = bitstring.Array(c['first'], bitstring.Bits(bin=bits) if bits else bitstring.Bits())
+        t = c.get('touch')
+        touched = call(lambda: (a.itemsize if t == 'itemsize' else (a.byteswap(), a.byteswap()) if t == 'byteswap-twice' else
+                                a.equals(array.array('B', [1])) if t == 'equals' else a.pp(stream=io.StringIO()) if t == 'pp' else
+                                (len(a), a.tolist()) if t == 'tolist' else repr(a) if t == 'repr' else a.trailing_bits if t == 'trailing' else None))
+        ctx.op('Array.byteswap:after-dtype-change:' + str(t))
+        a.dtype = dt
+        if util.B(a.data) != bits:
+            ctx.mismatch('C18|array-byteswap|dtype-change-altered-data', short(c), f'{c["first"]} ({t}) -> {dt}: {util.B(a.data)[:96]} expected {bits[:96]}')
+            return
+    else:
+        a = bitstring.Array(dt, bitstring.Bits(bin=bits) if bits else bitstring.Bits())
     g = call(lambda: (a.byteswap(), util.B(a.data)))
     ctx.op('Array.byteswap', outcome(g))
     if isz % 8:
@@ -1190,7 +1208,13 @@ def gen_arr_bswap(ctx):
     dt, isz = rng.choice(ARR_BS_DTYPES)
     n = rng.choice([0, 1, 2, 3, 5, 8])
     tb = rng.choice([0, 0, 0, 1, isz - 1, rng.randrange(isz)])
-    return {'k': 'arr_bswap', 'dtype': dt, 'itemsize': isz, 'bin': util.rb(rng, n * isz + tb)}
+    c = {'k': 'arr_bswap', 'dtype': dt, 'itemsize': isz, 'bin': util.rb(rng, n * isz + tb)}
+    if rng.random() < 0.5:
+        first, fsz = rng.choice(ARR_BS_DTYPES)
+        if fsz != isz:
+            c['first'] = first
+            c['touch'] = rng.choice(ARR_TOUCHES)
+    return c
 
 
 # ---- enumerated sub-spaces ------------------------------------------------------------------------------------
